@@ -129,25 +129,37 @@ def lib_units(repo=None):
     return units
 
 
-def cc_flags(repo=None, extra=()):
+def cc_flags(repo=None, extra=(), pre=()):
     repo = repo or REPO
     mk = os.path.join(repo, 'lib', 'Makefile')
     defs = _make_var(mk, 'DEFS') or '-DHAVE_CONFIG_H'
     cpp = _make_var(mk, 'CPPFLAGS') or ''
-    flags = defs.split() + [f for f in cpp.split() if f.startswith(('-D', '-U', '-I'))]
+    flags = list(pre) + defs.split() + [f for f in cpp.split() if f.startswith(('-D', '-U', '-I'))]
     flags += ['-I%s/include' % repo, '-I%s/include/qb' % repo, '-I%s/lib' % repo,
               '-std=gnu17', '-UNDEBUG', '-w']
     flags += list(extra)
     return flags
 
 
-def extract(units, repo=None, outdir=None, extra_flags=(), jobs=16):
+def extract(units, repo=None, outdir=None, extra_flags=(), jobs=16, config_undef=()):
     """run qbfacts on every unit (in parallel, one output file each)"""
     repo = repo or REPO
     ensure_extractor()
     outdir = outdir or os.path.join(BUILD, 'facts')
     os.makedirs(outdir, exist_ok=True)
-    flags = cc_flags(repo, extra_flags)
+    pre = []
+    if config_undef:
+        # alternative configuration: a private copy of config.h with some HAVE_* lines removed,
+        # found first on the include path
+        alt = os.path.join(outdir, '_altcfg')
+        os.makedirs(alt, exist_ok=True)
+        src = open(os.path.join(repo, 'include', 'config.h'), errors='replace').read().split('\n')
+        keep = [l for l in src if not any(l.startswith('#define %s ' % u) or l.strip() == '#define %s' % u for u in config_undef)]
+        if len(keep) == len(src):
+            raise AnalysisBroken('alternative configuration: none of %s is defined in config.h' % (list(config_undef),))
+        open(os.path.join(alt, 'config.h'), 'w').write('\n'.join(keep))
+        pre = ['-I' + alt]
+    flags = cc_flags(repo, extra_flags, pre)
     rdir = resource_dir()
 
     def one(u):
